@@ -107,9 +107,6 @@ func TestVerifC10(t *testing.T) {
 		cfgs = append(cfgs, c10Cfg{3, "random", 0, false, true}, c10Cfg{3, "exponential", 0.5, true, true})
 		// longer retry chains: the exponential back-off must keep compounding (w, 1.5w, 2.25w, 3.375w, ...) and a random one must not shrink
 		cfgs = append(cfgs, c10Cfg{4, "exponential", 0, false, false}, c10Cfg{4, "exponential", 0.5, true, false}, c10Cfg{4, "random", 0.5, false, false})
-		if env.Thorough() {
-			cfgs = append(cfgs, c10Cfg{5, "exponential", 0, false, false}, c10Cfg{5, "exponential", 0.5, true, false})
-		}
 		cancels := []time.Duration{0, 10*time.Millisecond + 3, 75*time.Millisecond + 3, 120*time.Millisecond + 3}
 		if env.Thorough() {
 			cancels = append(cancels, 30*time.Millisecond+3, 260*time.Millisecond+3)
